@@ -17,6 +17,14 @@ def okWatch (F : Facts) : Bool :=
 /-- … and the conversion that makes the comparison exact. -/
 def ok (F : Facts) : Bool := okBase F && F.conv == .ceil
 
+/-- the way from the command line: no alias rule at all, or one that compares the key with the flag's real
+default (0: "nothing given") using the float getter, and the alias key with its own default -/
+def okFlag (F : Facts) : Bool :=
+  F.msrFlagDefault == 0 &&
+  (F.msrAliasRule == "none" ||
+   (F.msrAliasRule == "copyAlias" && F.msrAliasGetter == "GetFloat64" && F.msrAliasKeyConst == F.msrFlagDefault &&
+    F.msrAliasUnsetConst == F.msrAliasDefault))
+
 /-- what suffices for monotonicity -/
 def okMono (F : Facts) : Bool := F.freeOp == .lt || F.freeOp == .le
 
@@ -166,5 +174,29 @@ theorem watch_tracks (F : Facts) (h : okWatch F = true) (lows : List Bool) : wat
     intro acc p
     simp only [List.foldl_cons]
     rw [ih]; simp
+
+/-- a setting the operator gives (> 0) reaches the guard unchanged -/
+theorem configured_given (F : Facts) (h : okFlag F = true) (v : Rat) (hv : 0 < v) : configured F (some v) = v := by
+  simp only [okFlag, Bool.and_eq_true, Bool.or_eq_true, beq_iff_eq] at h
+  obtain ⟨h0, h⟩ := h
+  simp only [configured, afterAliases, Option.getD_some]
+  rcases h with h | ⟨⟨⟨h1, h2⟩, h3⟩, h4⟩
+  · simp [h]
+  · have hne : (v == F.msrAliasKeyConst) = false := by
+      rw [h3, h0]
+      simp only [beq_eq_false_iff_ne, ne_eq]
+      intro hc
+      rw [hc] at hv
+      exact absurd hv (by decide)
+    simp [h1, h2, getAs, hne]
+
+/-- nothing given: the guard sees a non-positive setting, i.e. the default threshold applies -/
+theorem configured_none (F : Facts) (h : okFlag F = true) : configured F none = 0 := by
+  simp only [okFlag, Bool.and_eq_true, Bool.or_eq_true, beq_iff_eq] at h
+  obtain ⟨h0, h⟩ := h
+  simp only [configured, afterAliases, Option.getD_none]
+  rcases h with h | ⟨⟨⟨h1, h2⟩, h3⟩, h4⟩
+  · simp [h, h0]
+  · simp [h1, h2, getAs, h4, h0]
 
 end Zeno.Model.Disk
